@@ -48,6 +48,13 @@ def cases(tier, seed):
     for inst in sweep.cyc_instances(tier, seed, per_shape=1 if q else 2):
         for fam in ("cons_cover", "cons_mfd", "cons_err", "ignore_vs_scale0", "starts_ends"):
             yield dict(inst, family=fam)
+    # graphs with more routes than arcs, every route a constraint (witness oracle)
+    for spec in (FORCED_MANY[:2] + FORCED_MANY[4:5]) if q else FORCED_MANY:
+        for cls in ("MinPathCover", "MinFlowDecomp", "MinPathCoverCycles", "MinFlowDecompCycles"):
+            yield {"forced_many": list(spec), "family": "forced_many", "only_cls": cls}
+
+
+FORCED_MANY = [("K", 2, 3), ("K", 3, 3), ("K", 4, 4), ("K", 4, 5), ("S", 3, 2, 2), ("S", 2, 2, 2, 2)]
 
 
 def json_key(inst):
@@ -88,7 +95,65 @@ def _constraint_sets(inst, cyc):
     return sets
 
 
+def _forced_many_graph(spec):
+    """DAGs with MORE source-sink routes than arcs. ('K', p, q): sources a_i -> m -> sinks x_j (p*q routes, p+q arcs);
+    ('S', w1, w2, ...): segments in series, segment i = w_i parallel ways (direct arc or through one middle node)."""
+    arcs = []
+    if spec[0] == "K":
+        _, p, q = spec
+        arcs = [(f"a{i}", "m") for i in range(p)] + [("m", f"x{j}") for j in range(q)]
+        routes = [[(f"a{i}", "m"), ("m", f"x{j}")] for i in range(p) for j in range(q)]
+    else:
+        ways_per_seg = []
+        for si, w in enumerate(spec[1:]):
+            u, v = f"m{si}", f"m{si + 1}"
+            ways = [[(u, v)]] + [[(u, f"s{si}w{t}"), (f"s{si}w{t}", v)] for t in range(w - 1)]
+            for wy in ways:
+                arcs += wy
+            ways_per_seg.append(ways)
+        routes = [sum(combo, []) for combo in itertools.product(*ways_per_seg)]
+    nodes = list(dict.fromkeys(x for a in arcs for x in a))
+    return nodes, arcs, routes
+
+
+def _run_forced_many(case):
+    """every source-sink route is a constraint: each needs its own path / walk (a route contains exactly one full route), so the
+    optimum is the number of routes - more than the graph has arcs. Witness oracle: the routes themselves, weight 1 each."""
+    viol, nt, tags = [], [], collections.Counter()
+    nodes, arcs, routes = _forced_many_graph(tuple(case["forced_many"]))
+    flow = collections.Counter(e for r in routes for e in r)
+    inst = {"fam": "dag", "nodes": nodes, "arcs": [[u, v, flow[(u, v)]] for (u, v) in arcs]}
+    cons = [[list(e) for e in r] for r in routes]
+    opt = len(routes)
+    for cls, ckey, rkey in (("MinPathCover", "subpath_constraints", "paths"), ("MinFlowDecomp", "subpath_constraints", "paths"),
+                            ("MinPathCoverCycles", "subset_constraints", "walks"), ("MinFlowDecompCycles", "subset_constraints", "walks")):
+        if case.get("only_cls") not in (None, cls):
+            continue
+        kw = {ckey: cons}
+        if "Flow" in cls:
+            kw["weight_type"] = "int"
+        o = drivers.observe(dict(inst, cls=cls, kw=kw))
+        tags["forced_many"] += 1
+        ctx = f"{cls} on {case['forced_many']} ({len(arcs)} arcs) with each of its {opt} routes as a constraint"
+        if o["exc"]:
+            viol.append({"kind": "constraint_raises", "msg": f"{ctx} raised {o['exc']} in {o['phase']}"})
+        elif not o["solved"]:
+            viol.append({"kind": "constrained_optimum_not_found", "msg": f"{ctx}: not solved, although the {opt} routes themselves (weight 1 each) are a solution"})
+        elif len(o["sol"][rkey]) != opt:
+            viol.append({"kind": "constrained_optimum_wrong", "msg": f"{ctx}: {len(o['sol'][rkey])} routes; every constraint needs its own route, the optimum is {opt}"})
+        else:
+            got = sorted(tuple(r) for r in o["sol"][rkey])
+            want = sorted(tuple([r[0][0]] + [e[1] for e in r]) for r in routes)
+            if got != want:
+                viol.append({"kind": "constraint_not_honoured", "msg": f"{ctx}: returned routes {got} are not the {opt} routes of the graph"})
+            else:
+                nt.append(f"forced_many|{case['forced_many']}|{cls}")
+    return {"v": viol, "nt": nt, "tags": dict(tags), "out": "forced_many:" + ("viol" if viol else "ok")}
+
+
 def run(case):
+    if case.get("forced_many"):
+        return _run_forced_many(case)
     viol = []
     nt = []
     tags = collections.Counter()
